@@ -28,13 +28,17 @@ pub struct FileCase {
     /// every n-th data segment lives at the start of a preallocated (fallocate) range twice its size
     #[serde(default)]
     pub prealloc_every: u8,
+    /// the k-th lseek(SEEK_DATA/SEEK_HOLE) / FIEMAP call of the probe fails with EINVAL / EIO / EOPNOTSUPP (never
+    /// ENXIO, which is itself the answer "no more data"): an error may be returned, data may not be hidden
+    #[serde(default)]
+    pub fault: Option<(u8, u8)>,
 }
 
 pub fn file_strategy() -> BoxedStrategy<FileCase> {
     let seg = (prop_oneof![3 => 1u32..300, 3 => 300u32..5000, 2 => 4096u32..65536, 1 => Just(4096u32), 1 => Just(8192u32)], prop_oneof![4 => 1u8..4, 2 => 4u8..40, 1 => 40u8..255], prop_oneof![2 => Just(0u16), 1 => 1u16..4096]);
     let n = prop_oneof![1 => 0usize..1, 2 => 1usize..2, 5 => 2usize..33, 3 => 33usize..101];
-    (n.prop_flat_map(move |k| prop::collection::vec(seg.clone(), k..=k)), prop_oneof![2 => Just(0u8), 1 => 1u8..30], any::<bool>(), any::<bool>(), prop_oneof![3 => Just(0u16), 1 => 1u16..9000], prop_oneof![3 => Just(0u8), 1 => Just(1u8), 1 => 2u8..5])
-        .prop_map(|(segs, lead_hole_blocks, trailing_hole, sync, zero_tail, prealloc_every)| FileCase { segs, lead_hole_blocks, trailing_hole, sync, zero_tail, prealloc_every })
+    (n.prop_flat_map(move |k| prop::collection::vec(seg.clone(), k..=k)), prop_oneof![2 => Just(0u8), 1 => 1u8..30], any::<bool>(), any::<bool>(), prop_oneof![3 => Just(0u16), 1 => 1u16..9000], prop_oneof![3 => Just(0u8), 1 => Just(1u8), 1 => 2u8..5], prop::option::weighted(0.2, (0u8..6, 0u8..3)))
+        .prop_map(|(segs, lead_hole_blocks, trailing_hole, sync, zero_tail, prealloc_every, fault)| FileCase { segs, lead_hole_blocks, trailing_hole, sync, zero_tail, prealloc_every, fault })
         .boxed()
 }
 
@@ -113,17 +117,34 @@ pub fn judge_file(c: &FileCase, rec: &mut Rec) -> Verdict {
     if let Err(e) = materialise(&sb.root, &[Ent::file(b"f", content.clone())]) {
         return Verdict::Inconclusive(format!("materialise: {e}"));
     }
-    let out = run_plain(&probe_spec(&sb, &["extents", "f"], None));
+    let (stdout, timed_out, signal) = if let Some((k, e)) = c.fault {
+        use crate::sup::*;
+        let errno = [libc::EINVAL, libc::EIO, libc::EOPNOTSUPP][e as usize % 3];
+        let rule = Rule { sys: vec![Sys::Lseek, Sys::Fiemap], path: PathSel::Sandbox, nth: Nth::Kth(k as usize), action: Action::Errno(errno) };
+        let mut spec = super::c06::sup_spec(&sb, vec![b"extents".to_vec(), b"f".to_vec()], vec![rule], Sched::free());
+        spec.bin = PathBuf::from(PROBE_BIN);
+        spec.timeout = std::time::Duration::from_secs(20);
+        let o = Sup::run(spec);
+        if o.setup_error.is_some() {
+            return Verdict::Inconclusive(format!("supervisor {:?}", o.setup_error));
+        }
+        rec.class(format!("file|fault|errno{}|fired={}", errno, o.fired.iter().sum::<usize>() > 0));
+        (o.stdout.clone(), o.timed_out, o.signal)
+    } else {
+        let out = run_plain(&probe_spec(&sb, &["extents", "f"], None));
+        (out.stdout, out.timed_out, out.signal)
+    };
     rec.eval(1);
-    if out.timed_out {
+    if timed_out {
         return Verdict::Inconclusive("probe watchdog (map/segment walk did not finish in 20 s)".into());
     }
-    if out.signal.is_some() {
-        return Verdict::Inconclusive(format!("probe died with signal {:?} (memory limit?)", out.signal));
+    if signal.is_some() {
+        return Verdict::Inconclusive(format!("probe died with signal {:?} (memory limit?)", signal));
     }
-    let v: Value = match serde_json::from_slice(&out.stdout) {
+    let out_stdout = stdout;
+    let v: Value = match serde_json::from_slice(&out_stdout) {
         Ok(v) => v,
-        Err(e) => return Verdict::Inconclusive(format!("probe output: {e}: {}", String::from_utf8_lossy(&out.stdout).chars().take(200).collect::<String>())),
+        Err(e) => return Verdict::Inconclusive(format!("probe output: {e}: {}", String::from_utf8_lossy(&out_stdout).chars().take(200).collect::<String>())),
     };
     let file = match read_all(&sb.abs(b"f")) {
         Ok(f) => f,
@@ -452,6 +473,6 @@ impl Check for C19 {
         }
     }
     fn required_classes(&self, _tier: Tier) -> Vec<String> {
-        ["extents=>32", "extents=2-32", "extents=1|", "unaligned", "tail-data", "tail-hole", "data-at-0", "synced", "delalloc", "delalloc|prealloc", "list|n=9+", "touching=2", "gap1=2", "exhaustive|", "list|overlapping-inputs", "exhaustive-overlap|"].iter().map(|s| s.to_string()).collect()
+        ["extents=>32", "extents=2-32", "extents=1|", "unaligned", "tail-data", "tail-hole", "data-at-0", "synced", "delalloc", "delalloc|prealloc", "list|n=9+", "touching=2", "gap1=2", "exhaustive|", "list|overlapping-inputs", "exhaustive-overlap|", "file|fault|errno22|fired=true"].iter().map(|s| s.to_string()).collect()
     }
 }
